@@ -24,7 +24,7 @@
          operations on other masks: the JSON text is not stable over a history              *)
 From Coq Require Import List Bool ZArith NArith.
 From Coq.Strings Require Import Byte.
-From Verif Require Import Base.Bytes Mask.Path Mask.Desc Mask.Trie Mask.Json Mask.Spec.
+From Verif Require Import Base.Bytes Mask.Path Mask.Desc Mask.Trie Mask.Json Mask.Spec Mask.Print.
 Import ListNotations.
 
 (* flags of every step, All(), Exist(), keys of the set children of the last sub mask *)
@@ -219,6 +219,8 @@ Definition check_paths (env : senv) (d : ty) (black : bool) (paths : list bytes)
         if ok && negb (forallb grammatical toks) then [10%N] else []
     | Some pss =>
         if negb (list_eqb (list_eqb token_eqb) toks (map tokens_of pss)) then [9%N] else
+        (* the strings are what Mask/Print.v prints for these paths *)
+        if negb (list_eqb beqb (map print_path pss) paths) then [9%N] else
         match elab_all env d pss with
         | None =>
             if negb ok then []
@@ -252,7 +254,7 @@ Definition check_paths (env : senv) (d : ty) (black : bool) (paths : list bytes)
                 flat_map (fun v =>
                   match elab_all env d (v_gram v) with
                   | Some gv =>
-                      if negb (same_set ps (path_set gv)) then [9%N]
+                      if negb (same_set ps (path_set gv)) || negb (list_eqb beqb (map print_path (v_gram v)) (v_paths v)) then [9%N]
                       else if v_ok v && list_eqb obs_eqb ob (v_obs v) then [] else [11%N]
                   | None => [9%N]
                   end) vars
